@@ -103,6 +103,14 @@ Theorem C09_poller_enabled_while_pending : forall c ops from0,
   w_pending (final c (init from0) ops) <> [] -> w_enabled (final c (init from0) ops) = true.
 Proof. exact poller_enabled_while_pending. Qed.
 
+(* ... and then a tick of _fetchHeight is never gated off: it is a height tick of the event loop.  Together: pending events
+   => poller enabled => every successful height poll processes the pending events => forwarded at the first tick at which
+   they are final. *)
+Theorem C09_height_poll_ticks_while_pending : forall c ops from0 height now mc hd,
+  let s := final c (init from0) ops in
+  w_pending s <> [] -> fetch_height_tick c s (Some height) now mc hd = step c s (OTick height now mc hd).
+Proof. intros c ops from0 height now mc hd s P. apply fetch_height_ticks_while_pending; [apply poller_enabled_while_pending|exact P]. Qed.
+
 (* ------------------------------------------------------------------ the hypotheses are satisfiable: a concrete history *)
 Definition ex_c : cfg := {| c_gov := 10; c_bridge := 77; c_mainnet := false |}.
 Definition ex_good (uid cl : Z) : cevent :=
@@ -190,6 +198,12 @@ Proof.
   apply (C09_pending_event_forwarded_when_final ex_c ex_H); auto.
 Qed.
 
+(* in the example, after the two hand-overs events are pending, so the poller is enabled and a height poll is a tick *)
+Example C09_height_poll_instance :
+  w_pending (final ex_c (init 0) (firstn 5 ex_ops)) <> [] /\ w_enabled (final ex_c (init 0) (firstn 5 ex_ops)) = true /\
+  map (fun f => e_uid (f_ev f)) (o_fwd (snd (fetch_height_tick ex_c (final ex_c (init 0) (firstn 5 ex_ops)) (Some 101) 100000 (fun _ => Some true) ex_hd))) = [1; 5].
+Proof. split; [vm_compute; discriminate|]. split; vm_compute; reflexivity. Qed.
+
 Print Assumptions C09_one_poll.
 Print Assumptions C09_partition_all_histories.
 Print Assumptions C09_kept_plain.
@@ -204,3 +218,4 @@ Print Assumptions C09_pending_event_forwarded_when_final.
 Print Assumptions C09_delivery_keeps_pending.
 Print Assumptions C09_forwarded_at_most_once.
 Print Assumptions C09_poller_enabled_while_pending.
+Print Assumptions C09_height_poll_ticks_while_pending.
